@@ -194,6 +194,48 @@ Section Plan.
     end.
 
   Definition cleanup : dir := fold_left apply plan d.
+
+  (** ---- moveAll with its failure fallback.  [mvfail to_index b] = an os.Rename of shard file b fails in
+      moveAll(indexDir, ...) (to_index) resp. moveAll(trashDir, ...).  moveAll then removes what it already put
+      into the destination for this shard, and ALL shards it was asked to move ("failed to move shard, deleting
+      all shards"): the ones already moved at their destination, the others at their source, and returns.
+      [done] = the shards handled before; compound shards never get renamed (HACK branch) so they cannot fail.
+      In the to_trash direction the compound shards of the list are the ones [TombOrRm] decides to remove; the
+      destination is only cleared for the shards the loop reached. *)
+  Variable mvfail : bool -> N -> bool.
+  Definition rm_dst (ti : bool) (s : sref) : act := if ti then RmIndex (s_base s) else RmTrash (s_base s).
+  Definition rm_src (ti : bool) (s : sref) : act := if ti then RmTrash (s_base s) else RmIndex (s_base s).
+  Definition mv (ti : bool) (s : sref) : act := if ti then MvToIndex (s_base s) else MvToTrash (s_base s).
+  (* removeAll(shards...) for a shard the loop has not reached *)
+  Definition drop (ti : bool) (id : N) (s : sref) : act :=
+    if s_compound s then (if ti then RmTrash (s_base s) else TombOrRm (s_base s) id false) else rm_src ti s.
+  Fixpoint moves (ti : bool) (id : N) (done g : list sref) : list act :=
+    match g with
+    | [] => []
+    | s :: r =>
+        if s_compound s then
+          (if ti then [RmIndex (s_base s); RmTrash (s_base s)] else [TombOrRm (s_base s) id true]) ++ moves ti id done r
+        else if mvfail ti (s_base s) then
+          rm_dst ti s :: rm_dst ti s :: map (rm_dst ti) done ++ map (drop ti id) (s :: r)
+        else rm_dst ti s :: mv ti s :: moves ti id (done ++ [s]) r
+    end.
+  Definition plan4_f : list act :=
+    flat_map (fun id =>
+      if memN id trash_keys then moves true id [] (group tr id)
+      else if memN id tomb_keys then
+             match tomb_pick (tomb_candidates (d_index d) id) with
+             | Some b => [Tomb b id false]
+             | None => []
+             end
+      else []) repos.
+  Definition plan5_f : list act :=
+    flat_map (fun id =>
+      let g := group ix id in
+      map (fun s => Touch (s_base s)) g ++
+      map (fun s => Tomb (s_base s) id true) (filter (fun s => sm && s_compound s) g) ++
+      moves false id [] (filter (fun s => negb (sm && s_compound s)) g)) keys4.
+  Definition plan_f : list act := plan1 ++ plan3 ++ plan4_f ++ plan5_f ++ [ClearTmp].
+  Definition cleanup_f : dir := fold_left apply plan_f d.
   Definition cleanup_before_fix : dir := fold_left apply plan_before_fix d.
   Definition cleanup_before_fix2 : dir := fold_left apply plan_before_fix2 d.
 End Plan.
@@ -217,11 +259,12 @@ Definition files_eqb (a b : list file) : bool :=
 Definition dir_eqb (a b : dir) : bool :=
   files_eqb (d_index a) (d_index b) && files_eqb (d_trash a) (d_trash b) && Nat.eqb (d_tmps a) (d_tmps b).
 
-(** (shardMerging, assigned ids, before, after the first cleanup, after a second cleanup); now = 0,
-    mtimes are relative to now.  The second cleanup starts from the OBSERVED first result. *)
-Definition c32case := (bool * list N * dirT * dirT * dirT)%type.
+(** (shardMerging, assigned ids, (base names whose rename into the index / into the trash was made to fail during the
+    first cleanup), before, after the first cleanup, after a second, fault-free cleanup); now = 0, mtimes are relative
+    to now.  The second cleanup starts from the OBSERVED first result. *)
+Definition c32case := (bool * list N * (list N * list N) * dirT * dirT * dirT)%type.
 Definition c32_ok (c : c32case) : bool :=
-  let '(sm, repos, d0, d1, d2) := c in
-  dir_eqb (cleanup (mk_dir d0) repos 0 sm) (mk_dir d1) &&
+  let '(sm, repos, (fi, ft), d0, d1, d2) := c in
+  dir_eqb (cleanup_f (mk_dir d0) repos 0 sm (fun ti b => memN b (if ti then fi else ft))) (mk_dir d1) &&
   dir_eqb (cleanup (mk_dir d1) repos 0 sm) (mk_dir d2).
 Definition c32_mismatches (cs : list c32case) : list N := bad_indexes c32_ok cs.
